@@ -129,23 +129,25 @@ Definition le32 (x : Z) : list Z :=
 Definition header (count : Z) (offs : list Z) : list Z :=
   le32 (wrapU 32 count) ++ flat_map le32 offs.
 
-Record est := mkE { e_count : Z; e_offsets : list Z; e_buf : list Z; e_c : cst }.
-Definition e_init : est := mkE 0 (repeat 0 15) (repeat 0 64) c_init.
+(* e_ovf = rleEncoder.offsetOverflow *)
+Record est := mkE { e_count : Z; e_offsets : list Z; e_buf : list Z; e_c : cst; e_ovf : bool }.
+Definition e_init : est := mkE 0 (repeat 0 15) (repeat 0 64) c_init false.
 
 Definition est_flush (st : est) : est :=
   let (o, c') := enc_flush (e_c st) in
-  mkE (e_count st) (e_offsets st) (e_buf st ++ o) c'.
+  mkE (e_count st) (e_offsets st) (e_buf st ++ o) c' (e_ovf st).
 Definition pad_even (buf : list Z) : list Z :=
   if Z.odd (zlen buf) then buf ++ [0] else buf.
-(* NextSegment: Flush; pad; offsets[count] = uint32(Len) (index panic if count >= 15); count++ *)
+(* NextSegment: Flush; pad; if uint64(Len) > math.MaxUint32 { offsetOverflow = true };
+   offsets[count] = uint32(Len) (index panic if count >= 15); count++ *)
 Definition next_segment (st : est) : outcome est :=
   let st1 := est_flush st in
   let buf := pad_even (e_buf st1) in
   if (e_count st1 <? 0) || (e_count st1 >=? 15) then Panic
   else Ok (mkE (e_count st1 + 1) (upd (e_offsets st1) (e_count st1) (wrapU 32 (zlen buf)))
-               buf (e_c st1)).
+               buf (e_c st1) (e_ovf st1 || (zlen buf >? 4294967295))).
 Definition make_even (st : est) : est :=
-  mkE (e_count st) (e_offsets st) (pad_even (e_buf st)) (e_c st).
+  mkE (e_count st) (e_offsets st) (pad_even (e_buf st)) (e_c st) (e_ovf st).
 Definition get_buffer (st : est) : list Z :=
   let st1 := est_flush st in
   header (e_count st1) (e_offsets st1) ++ zskip 64 (e_buf st1).
@@ -176,15 +178,17 @@ Fixpoint enc_segs (fuel : nat) (g : geom) (src : list Z) (s : Z) (st : est) : ou
       obind (next_segment st) (fun st1 =>
         obind (enc_plane (S (length src)) (zskip (seg_pos g s) src) (seg_off_enc g) (g_npix g) (e_c st1))
           (fun oc =>
-             let st2 := est_flush (mkE (e_count st1) (e_offsets st1) (e_buf st1 ++ fst oc) (snd oc)) in
+             let st2 := est_flush (mkE (e_count st1) (e_offsets st1) (e_buf st1 ++ fst oc) (snd oc) (e_ovf st1)) in
              enc_segs f g src (s + 1) st2))
     else Ok st
   end.
 
-(* encodeFrame. fuel 16: NextSegment panics at the 16th segment. *)
+(* encodeFrame. fuel 16: NextSegment panics at the 16th segment. After the segment loop:
+   if encoder.offsetOverflow { return error } (a segment offset did not fit 32 bits). *)
 Definition rle_encode (g : geom) (src : list Z) : outcome (list Z) :=
   if zlen src =? 0 then Err
-  else obind (enc_segs 16 g src 0 e_init) (fun st => Ok (get_buffer (make_even st))).
+  else obind (enc_segs 16 g src 0 e_init) (fun st =>
+         if e_ovf st then Err else Ok (get_buffer (make_even st))).
 
 (* ------------------------------------------------------------------ decoder *)
 
